@@ -4,13 +4,10 @@ package main
 
 import (
 	"bufio"
-	"crypto/sha1"
-	"encoding/hex"
 	"encoding/json"
 	"flag"
 	"fmt"
 	"os"
-	"path/filepath"
 	"time"
 
 	"verifharness/replay"
@@ -18,8 +15,9 @@ import (
 )
 
 type sample struct {
-	History  json.RawMessage  `json:"history"`
-	Mismatch *replay.Mismatch `json:"mismatch,omitempty"`
+	History    json.RawMessage    `json:"history"`
+	Mismatch   *replay.Mismatch   `json:"mismatch,omitempty"`
+	Mismatches []*replay.Mismatch `json:"mismatches,omitempty"`
 }
 
 type summary struct {
@@ -28,6 +26,7 @@ type summary struct {
 	Calls       int                 `json:"backend_calls"`
 	Closes      int                 `json:"closes"`
 	Agreed      int                 `json:"agreed"`
+	Cuts        int                 `json:"cuts"`
 	ByProp      map[string]int      `json:"mismatch_by_prop"`
 	ByTag       map[string]int      `json:"mismatch_by_tag"`
 	Distinct    map[string]int      `json:"distinct_last_steps"`
@@ -35,6 +34,7 @@ type summary struct {
 	Samples     []json.RawMessage   `json:"samples"`
 	Replays     map[string][]string `json:"replays"`
 	WallS       float64             `json:"wall_s"`
+	kept        map[string]int
 	ParseErrors int                 `json:"parse_errors"`
 }
 
@@ -43,14 +43,15 @@ func main() {
 	out := flag.String("out", "", "summary json")
 	shard := flag.Int("shard", 0, "shard index")
 	nshard := flag.Int("nshard", 1, "number of shards")
-	replayDir := flag.String("replaydir", "", "where to write counterexample histories")
+	_ = flag.String("replaydir", "", "unused (kept for compatibility)")
 	timeout := flag.Duration("timeout", 10*time.Second, "per-event timeout")
 	maxKeep := flag.Int("keep", 20, "mismatches to keep in the summary")
 	single := flag.Bool("single", false, "input is one replay file {history, mismatch}")
+	cuts := flag.String("cuts", "", "also cut the last frame of every history: sample | all")
 	flag.Parse()
 
 	opt := replay.Options{Table: wirecodec.MustLoad(), Timeout: *timeout}
-	sum := &summary{ByProp: map[string]int{}, ByTag: map[string]int{}, Distinct: map[string]int{}, Replays: map[string][]string{}}
+	sum := &summary{ByProp: map[string]int{}, ByTag: map[string]int{}, Distinct: map[string]int{}, Replays: map[string][]string{}, kept: map[string]int{}}
 	start := time.Now()
 
 	if *single {
@@ -64,14 +65,16 @@ func main() {
 			fmt.Fprintln(os.Stderr, err)
 			os.Exit(2)
 		}
-		steps, err := replay.ParseLine(s.History)
+		hist, err := replay.ParseLine(s.History)
 		if err != nil {
 			fmt.Fprintln(os.Stderr, err)
 			os.Exit(2)
 		}
-		mm, _ := replay.Replay(opt, steps)
-		if mm != nil {
+		mms, _ := replay.Replay(opt, hist)
+		for _, mm := range mms {
 			fmt.Printf("MISMATCH prop=%s tag=%s step=%d %s\n", mm.Prop, mm.Tag, mm.Step, mm.Detail)
+		}
+		if len(mms) > 0 {
 			os.Exit(1)
 		}
 		fmt.Println("history agrees with the model")
@@ -93,13 +96,14 @@ func main() {
 			continue
 		}
 		raw := append([]byte{}, sc.Bytes()...)
-		steps, err := replay.ParseLine(raw)
+		hist, err := replay.ParseLine(raw)
 		if err != nil {
 			sum.ParseErrors++
 			continue
 		}
+		steps := hist.H
 		// keep a pristine copy for the report (Replay marks calls as used)
-		mm, run := replay.Replay(opt, steps)
+		mms, run := replay.Replay(opt, hist)
 		sum.Histories++
 		sum.Steps += run.Steps
 		sum.Calls += run.CallsSeen
@@ -107,25 +111,54 @@ func main() {
 		if len(steps) > 0 {
 			sum.Distinct[replay.Key(&steps[len(steps)-1])]++
 		}
-		if mm == nil {
+		if *cuts != "" && len(mms) == 0 {
+			if n := replay.FrameLen(opt, hist); n > 0 {
+				offs := []int{1, 5, 7, n - 1}
+				if *cuts == "all" {
+					offs = offs[:0]
+					for k := 1; k < n; k++ {
+						offs = append(offs, k)
+					}
+				}
+				for _, k := range offs {
+					if k <= 0 || k >= n {
+						continue
+					}
+					h2, _ := replay.ParseLine(raw)
+					cm, crun := replay.ReplayCut(opt, h2, k)
+					sum.Cuts++
+					sum.Steps += crun.Steps
+					sum.Closes += crun.ClosesSeen
+					for _, m := range cm {
+						m.Detail = fmt.Sprintf("stream cut after %d of %d bytes of the last frame: %s", k, n, m.Detail)
+						m.Tag = "cut-" + m.Tag
+						mms = append(mms, m)
+					}
+					if len(cm) > 0 {
+						break
+					}
+				}
+			}
+		}
+		if len(mms) == 0 {
 			sum.Agreed++
-			if len(sum.Samples) < 3 && len(steps) >= 2 {
+			if len(sum.Samples) < 3 && len(steps) >= 2 && len(steps[len(steps)-1].Calls) > 0 && len(steps[len(steps)-2].Calls) > 0 {
 				sum.Samples = append(sum.Samples, inner(raw))
 			}
 			continue
 		}
-		sum.ByProp[mm.Prop]++
-		sum.ByTag[mm.Tag]++
-		s := sample{History: inner(raw), Mismatch: mm}
-		if len(sum.Mismatches) < *maxKeep {
-			sum.Mismatches = append(sum.Mismatches, s)
-		}
-		if *replayDir != "" && len(sum.Replays[mm.Prop]) < 5 {
-			h := sha1.Sum(raw)
-			p := filepath.Join(*replayDir, fmt.Sprintf("session-%s-%s.json", mm.Prop, hex.EncodeToString(h[:6])))
-			b, _ := json.MarshalIndent(s, "", " ")
-			if os.WriteFile(p, b, 0o644) == nil {
-				sum.Replays[mm.Prop] = append(sum.Replays[mm.Prop], p)
+		seen := map[string]bool{}
+		for _, mm := range mms {
+			if seen[mm.Prop] {
+				continue
+			}
+			seen[mm.Prop] = true
+			sum.ByProp[mm.Prop]++
+			sum.ByTag[mm.Tag]++
+			// one sample per owning property, so that every check finds its own
+			if sum.kept[mm.Prop] < *maxKeep {
+				sum.kept[mm.Prop]++
+				sum.Mismatches = append(sum.Mismatches, sample{History: inner(raw), Mismatch: mm, Mismatches: mms})
 			}
 		}
 	}
